@@ -171,6 +171,18 @@ pub fn drive_c16(args: &[String]) {
         REPEATS.store(nrep, std::sync::atomic::Ordering::Relaxed);
         if let Ok(Some(c)) = catch(|| pseudo_toroidal_cover(&s)) { sink.emit(simplify_event(&c, true, true, nvar, &mut rng, "ptc of corpus")); }
     }
+    // 2-sheeted covers of corpus symbols are euclidean too (a cover of a euclidean symbol describes the same tiling with
+    // less symmetry), so their pseudo-toroidal covers are 3-tori: a seeded sample, each with two renumberings
+    {
+        let cap = arg_usize(args, "--cover-cap", 40);
+        let mut cs: Vec<PartialDSym> = corpus3d().iter().flat_map(|s| small_covers(s, 2)).filter(|c| c.size() <= 16).collect();
+        cs.shuffle(&mut rng);
+        cs.truncate(cap);
+        REPEATS.store(1, std::sync::atomic::Ordering::Relaxed);
+        for c2 in cs {
+            if let Ok(Some(c)) = catch(|| pseudo_toroidal_cover(&c2)) { if c.size() <= 400 { sink.emit(simplify_event(&c, true, true, 2, &mut rng, "ptc of corpus (2-sheeted cover of a corpus symbol)")); } }
+        }
+    }
     // the prism family of Prism.tla (euclidean by construction): their pseudo-toroidal covers are 3-tori as well
     if let Some(p) = arg(args, "--prisms") {
         let mut fam = prism_family(&p, 2);
